@@ -778,9 +778,23 @@ def build_families(quick: bool, E: "Enc") -> dict:
     for a_, b_ in ulp_pairs[:4]:
         gcps += [GCPGeoBox((3, 4), m1, Affine.translation(a_, 0)), GCPGeoBox((3, 4), m1, Affine.translation(b_, 0)),
                  GCPGeoBox((3, 4), m1, Affine.scale(1.0, a_)), GCPGeoBox((3, 4), m1, Affine.scale(1.0, b_))]
+    # many control points differing only in the middle of the list
+    gy, gx = np.meshgrid(np.arange(33, dtype="float64"), np.arange(34, dtype="float64"), indexing="ij")
+    pix_l = np.stack([gx.ravel(), gy.ravel()], axis=1)
+    wld_l = pix_l * 2 + 10
+    wld_l2 = wld_l.copy()
+    wld_l2[561, 0] += 0.5
+    gcps += [GCPGeoBox((33, 34), GCPMapping(pix_l, wld_l, crs_vals[1])),
+             GCPGeoBox((33, 34), GCPMapping(pix_l, wld_l2, crs_vals[1]))]
     _ = m1.p2w, m1.approx   # lazy fields of the mapping
     gcps.append(GCPGeoBox((3, 4), m1))
-    fams.append(Family("GCPGeoBox", "gcp", gcps, E.gcp))
+    def gcp_desc(o):
+        m = o._mapping
+        return (f"{o!r} affine={tuple(o._affine[:6])!r} mapping#{id(m) % 9973} n={len(m._wld)} "
+                f"wld[0]={m._wld[0].tolist()!r} pix[1]={m._pix[min(1, len(m._pix) - 1)].tolist()!r} "
+                f"sum(wld)={float(m._wld.sum())!r}")
+
+    fams.append(Family("GCPGeoBox", "gcp", gcps, E.gcp, [gcp_desc(o) for o in gcps]))
 
     # --- Tiles: equal tile counts with different base are the interesting neighbours
     rng_b = range(7, 13) if not quick else range(8, 12)
@@ -795,6 +809,10 @@ def build_families(quick: bool, E: "Enc") -> dict:
                   ((1, 2), (3, 0)), ((1, 2, 0), (3,)), ((0,), (0,)), ((5, 5), (5, 5)), ((5, 4), (5, 4)),
                   ((2 ** 30, 2 ** 30, 5), (1,)), ((2 ** 30, 2 ** 30, 5), (2,)), ((5,), (1,)), ((-2 ** 31 + 5,), (1,)),
                   ((2 ** 30, 2 ** 30, 2 ** 30, 2 ** 30, 5), (1,))]
+    # long chunk lists differing only in the middle (a token built from abbreviated text would merge them)
+    long_a = (5,) * 1500
+    long_b = long_a[:700] + (6, 4) + long_a[702:]
+    chunk_sets += [(long_a, (3,)), (long_b, (3,)), ((3,), long_a), ((3,), long_b)]
     vts = [VariableSizedTiles(c) for c in chunk_sets]
     enc_v = {id(o): f"{list_s(c[0])} {list_s(c[1])}" for o, c in zip(vts, chunk_sets)}
     fams.append(Family("VariableSizedTiles", "vst", vts, lambda o: enc_v[id(o)]))
